@@ -246,7 +246,13 @@ func (s *script) step() {
 			return
 		}
 		h := hs[rng.Intn(len(hs))]
-		s.bcast(h, e.txns[h].v2 && rng.Chance(1, 3))
+		if known := s.handles(func(t *ftxn) bool { return t.v2 && e.inPoolNow(t) }); len(known) > 0 && rng.Chance(1, 5) {
+			// the application validated with the manager first (or retries): the wallet is handed a
+			// set the pool already knows; it must be stored for re-loading all the same
+			s.bcast(known[rng.Intn(len(known))], true)
+		} else {
+			s.bcast(h, e.txns[h].v2 && rng.Chance(1, 3))
+		}
 	case r < 58:
 		hs := s.handles(func(t *ftxn) bool { return true })
 		if len(hs) == 0 {
@@ -528,6 +534,10 @@ func (s *script) scenarioDowntime() {
 		s.observe()
 		if e.txns[h] == nil {
 			break
+		}
+		if rng.Chance(1, 3) {
+			s.bcast(h, false) // validated with the manager first: the wallet then broadcasts a known set
+			s.observe()
 		}
 		s.bcast(h, true)
 		s.observe()
